@@ -5,7 +5,8 @@
  *             on fake descriptors / pools, own ABTI_global (white box)
  *   A k ; ... the public API of the library built from the tree under test
  *   S nes depth n seed   multi-stream create / migrate / free storm with a
- *             lookup-checker thread (monitor only)
+ *             lookup-checker thread (monitor only); about half of the user ->
+ *             user migrations keep the handle (same-handle moves)
  * Unit handles are carved from an arena aligned to 2^27 bytes and never
  * dereferenced (the arena is PROT_NONE): handle = base + offset, and
  * hash_index(base + offset) = hash_index(offset) (Coq: hash_index_arena). */
@@ -821,9 +822,56 @@ static int s_pool_idx(ABT_pool pool)
             return i;
     return -1;
 }
+/* Same-handle moves: a ULT that is about to migrate itself to the other served
+ * pool may register (self, its unit) here; the create_unit of that migration
+ * then hands out the same handle again ("unit = work-unit handle" pools), so
+ * that map(new) and unmap(old) of the runtime act on one key while the other
+ * streams and the checker use the same buckets.  s_slot_live counts the
+ * associations of a slot: 1 normally, 2 between that create_unit and the old
+ * pool's free_unit.  Only ULTs inside their body register, so a registered
+ * handle is never a descriptor that is being created. */
+#define S_KEEP 64
+static ABTD_atomic_ptr s_keep_thread[S_KEEP];
+static ABT_unit s_keep_unit[S_KEEP];
+static ABTD_atomic_int s_samehandle;
+static int s_keep_register(ABT_thread self, ABT_unit u)
+{
+    int i;
+    for (i = 0; i < S_KEEP; i++) {
+        if (ABTD_atomic_acquire_load_ptr(&s_keep_thread[i]) == NULL &&
+            ABTD_atomic_bool_cas_strong_ptr(&s_keep_thread[i], NULL, (void *)(uintptr_t)1)) {
+            s_keep_unit[i] = u;
+            ABTD_atomic_release_store_ptr(&s_keep_thread[i], (void *)self);
+            return i;
+        }
+    }
+    return -1;
+}
+static ABT_unit s_keep_take(ABT_thread thread)
+{
+    int i;
+    for (i = 0; i < S_KEEP; i++)
+        if (ABTD_atomic_acquire_load_ptr(&s_keep_thread[i]) == (void *)thread) {
+            ABT_unit u = s_keep_unit[i];
+            ABTD_atomic_release_store_ptr(&s_keep_thread[i], NULL);
+            return u;
+        }
+    return ABT_UNIT_NULL;
+}
+
 static ABT_unit s_create_unit(ABT_pool pool, ABT_thread thread)
 {
     (void)pool;
+    ABT_unit keep = s_keep_take(thread);
+    if (keep != ABT_UNIT_NULL) {
+        /* the handle this work unit already has: it must be live exactly once */
+        int ks = s_slot_of(keep);
+        if (ks < 0 || s_slot_thread[ks] != thread || ABTD_atomic_fetch_add_int(&s_slot_live[ks], 1) != 1)
+            ABTD_atomic_fetch_add_int(&s_err_dup, 1);
+        ABTD_atomic_fetch_add_int(&s_creates, 1);
+        ABTD_atomic_fetch_add_int(&s_samehandle, 1);
+        return keep;
+    }
     ABTD_spinlock_acquire(&s_free_lock);
     if (s_nfree == 0) {
         ABTD_spinlock_release(&s_free_lock);
@@ -832,7 +880,7 @@ static ABT_unit s_create_unit(ABT_pool pool, ABT_thread thread)
     }
     int s = s_free[--s_nfree];
     ABTD_spinlock_release(&s_free_lock);
-    if (ABTD_atomic_exchange_int(&s_slot_live[s], 1) != 0)
+    if (ABTD_atomic_fetch_add_int(&s_slot_live[s], 1) != 0)
         ABTD_atomic_fetch_add_int(&s_err_dup, 1);
     s_slot_thread[s] = thread;
     ABTD_atomic_fetch_add_int(&s_creates, 1);
@@ -842,7 +890,13 @@ static void s_free_unit(ABT_pool pool, ABT_unit unit)
 {
     (void)pool;
     int s = s_slot_of(unit);
-    if (s < 0 || ABTD_atomic_exchange_int(&s_slot_live[s], 0) != 1) {
+    int prev = s < 0 ? 0 : ABTD_atomic_fetch_sub_int(&s_slot_live[s], 1);
+    if (prev == 2) {
+        /* the old pool's free_unit of a same-handle move: the handle stays in use */
+        ABTD_atomic_fetch_add_int(&s_frees, 1);
+        return;
+    }
+    if (prev != 1) {
         ABTD_atomic_fetch_add_int(&s_err_dfree, 1);
         return;
     }
@@ -923,9 +977,22 @@ static void s_body(void *arg)
         /* user -> user remap on this stream, concurrently with the others */
         ABT_pool cur;
         ABT_thread_get_last_pool(self, &cur);
-        ABT_thread_migrate_to_pool(self, cur == SP[0].h ? SP[1].h : SP[0].h);
+        int kept = -1;
+        if ((r & 2) && !(((uintptr_t)u) & 1))
+            kept = s_keep_register(self, u); /* the new pool will hand out u again */
+        int mrc = ABT_thread_migrate_to_pool(self, cur == SP[0].h ? SP[1].h : SP[0].h);
+        if (mrc != ABT_SUCCESS && kept >= 0) {
+            s_keep_take(self);
+            kept = -1;
+        }
         ABT_self_yield();
-        ABT_thread_get_unit(self, &u);
+        /* consumed by the create_unit of the migration?  (if the request was not served, take it back) */
+        int consumed = kept >= 0 && s_keep_take(self) == ABT_UNIT_NULL;
+        ABT_unit u_after = ABT_UNIT_NULL;
+        ABT_thread_get_unit(self, &u_after);
+        if (consumed && u_after != u)
+            ABTD_atomic_fetch_add_int(&s_err_lookup, 1);
+        u = u_after;
         ABT_unit_get_thread(u, &t2);
         ABTD_atomic_fetch_add_int(&s_lookups, 1);
         if (t2 != self)
@@ -1005,7 +1072,9 @@ static void do_s(char *line)
         s_free[s_nfree++] = (i % 4) * 256 + i / 4;
     ABTD_spinlock_clear(&s_free_lock);
     ABTD_atomic_int *ctrs[] = { &s_err_dup, &s_err_dfree, &s_err_lookup, &s_err_nounit, &s_stop,
-                                &s_done, &s_created, &s_creates, &s_frees, &s_lookups };
+                                &s_done, &s_created, &s_creates, &s_frees, &s_lookups, &s_samehandle };
+    for (i = 0; i < S_KEEP; i++)
+        ABTD_atomic_relaxed_store_ptr(&s_keep_thread[i], NULL);
     for (i = 0; i < (int)(sizeof(ctrs) / sizeof(ctrs[0])); i++)
         ABTD_atomic_relaxed_store_int(ctrs[i], 0);
     s_total_max = nroot * ((1 << (depth + 1)) - 1);
@@ -1119,7 +1188,8 @@ static void do_s(char *line)
     else
         oprintf("S ok");
     if (getenv("VERIF_C14_VERBOSE"))
-        fprintf(stderr, "storm: units=%d parked=%d creates=%d lookups=%d nounit=%d %.2fs\n", total, npin, cr,
+        fprintf(stderr, "storm: units=%d parked=%d creates=%d same_handle_moves=%d lookups=%d nounit=%d %.2fs\n",
+                total, npin, cr, ABTD_atomic_acquire_load_int(&s_samehandle),
                 ABTD_atomic_acquire_load_int(&s_lookups), ABTD_atomic_acquire_load_int(&s_err_nounit),
                 now_s() - t0);
     /* pinned / parked units: run (they return at once) and free */
